@@ -190,3 +190,29 @@ func verifPoint(m *Memberlist, name string) {
 		(*fn)(m, name)
 	}
 }
+
+// VerifRecordOf copies the record of one member (nil if unknown).
+func (m *Memberlist) VerifRecordOf(name string) *VerifRecord {
+	m.nodeLock.RLock()
+	defer m.nodeLock.RUnlock()
+	n, ok := m.nodeMap[name]
+	if !ok {
+		return nil
+	}
+	r := &VerifRecord{
+		Name:        n.Name,
+		Addr:        append([]byte(nil), n.Addr...),
+		Port:        n.Port,
+		Meta:        append([]byte(nil), n.Meta...),
+		Vsn:         [6]uint8{n.PMin, n.PMax, n.PCur, n.DMin, n.DMax, n.DCur},
+		Incarnation: n.Incarnation,
+		State:       n.State,
+		StateChange: n.StateChange,
+		InMap:       true,
+	}
+	_, r.HasTimer = m.nodeTimers[name]
+	return r
+}
+
+// VerifNumQueued is the length of the membership broadcast queue.
+func (m *Memberlist) VerifNumQueued() int { return m.broadcasts.NumQueued() }
